@@ -88,6 +88,8 @@ class Ctx:
 
     def floor(self, rid, minimum):
         """a rule that matches fewer instances than confirmed by hand is analysis-broken, not a pass"""
+        if not self._on(rid):
+            return
         n = self.rule_counts.get(rid, {"instances": 0})["instances"]
         if n < minimum:
             self.broken.append("rule %s matched %d instances, floor is %d (anchors vanished?)" % (rid, n, minimum))
